@@ -122,16 +122,28 @@ def api_impl(a):
     mem = dstore.MemoryStore()
     rec = _Rec(mem)
     api._store_var = rec
-    if a["pre"]:
+    if sel.get("pre", a.get("pre")):
         # populated store: an earlier, well-formed evaluation
         p4.P0, p4.P1, p4.P2 = "/q0", "/q1", "/q2"
         dds.eval(p4.top)
         rec.stored, rec.synced = [], []
     before = (dict(mem._cache), dict(mem._paths))
     p4.P0, p4.P1, p4.P2 = paths
+    rootpath = None
+    if sel.get("rootkept"):
+        # the evaluation is a top-level dds.keep(rootpath, top): the root's own path takes part in the overlap test
+        rl = a["lr"]
+        rsegs = [a["r_%d" % j] for j in range(3)]
+        for j in range(rl, 3):
+            if rsegs[j] != 0:
+                return True
+        rootpath = _mkpath(alpha, rl, rsegs)
+        if rootpath in paths:
+            return True
+        paths = paths + [rootpath]
     tick.reset()
     try:
-        r = ("ok", dds.eval(p4.top))
+        r = ("ok", dds.keep(rootpath, p4.top) if rootpath else dds.eval(p4.top))
     except DDSException as e:
         r = ("dds", e.error_code)
     except Exception as e:
@@ -209,8 +221,15 @@ def make_fn(fn, sel, tag):
                 params.append(("s%d_%d" % (i, j), "int"))
                 pres.append("0 <= s%d_%d < %d" % (i, j, na))
         if fn == "api":
-            params.append(("pre", "int"))
-            pres.append("0 <= pre <= 1")
+            if "pre" not in sel:
+                params.append(("pre", "int"))
+                pres.append("0 <= pre <= 1")
+            if sel.get("rootkept"):
+                params.append(("lr", "int"))
+                pres.append("1 <= lr <= %d" % sel.get("maxlr", 3))
+                for j in range(3):
+                    params.append(("r_%d" % j, "int"))
+                    pres.append("0 <= r_%d < %d" % (j, na))
         return h.gen_fn(tag, fn, params, pres, "harness.C11", fn + "_impl")
     return h.gen_fn(tag, "prog", [("style", "int")], ["0 <= style <= 1"], "harness.C11", "prog_impl")
 
@@ -232,6 +251,10 @@ def queries(tier):
             if tier == "quick":
                 sel["maxtotal"] = 6
             qs.append({"id": "api.fg.l%d%d" % (l0, l1), "fn": "api", "sel": sel, "timeout": 600 if tier == "quick" else 3000})
+    # the same with the root function itself kept at a solver-chosen path (inner paths of 1..2 segments)
+    for l0 in (1, 2):
+        for pre in (0, 1):
+            qs.append({"id": "api.rootkept.l%d.pre%d" % (l0, pre), "fn": "api", "sel": {"alpha": ["f", "g", "x"], "native": True, "l0": l0, "l1": 1, "l2": 1, "rootkept": True, "pre": pre, "maxlr": 2}, "timeout": 900})
     for L in (1, 2, 3):
         for kind in ("call", "keep", "href"):
             qs.append({"id": "cycle.%d.%s" % (L, kind), "fn": "prog", "sel": {"family": "cycle", "L": L, "kind": kind}, "timeout": 200})
